@@ -517,6 +517,27 @@ pub fn run(ctx: &Ctx) -> (Spec, Report) {
         if !mods.is_empty() || after != before {
             rep.violate("C20|generate-config|existing-file-touched", format!("typeshare -g modified an existing configuration file: {}", mods.first().map(|e| e.line.clone()).unwrap_or_default()), json!({"args": args2, "before": String::from_utf8_lossy(&before), "after": String::from_utf8_lossy(&after)}));
         }
+        // nor an existing file of any other content: empty (which is a configuration of its own: it ends the ancestor search
+        // and selects the defaults), a few bytes of somebody else's, a file without write permission
+        for (what, content) in [("empty", &b""[..]), ("one-newline", &b"\n"[..]), ("foreign", &b"# mine\n[swift]\nprefix = \"Mine\"\n"[..])] {
+            std::fs::write(&target, content).unwrap();
+            let log3 = root.join("g3.log");
+            let o3 = run_bin(BinRun { cli: &cli, args: args2.clone(), env: vec![], cwd: &root, strace: Some(log3.clone()), wall_limit: Duration::from_secs(30) });
+            rep.eval(1);
+            rep.count("cli_runs", 1);
+            rep.count("overwrite_attempts", 1);
+            rep.cell(format!("generate-config|over-existing|{what}"));
+            let events = parse_log(&log3);
+            rep.count("syscall_events_logged", events.len() as u64);
+            let mods = modifications_under(&events, target.to_str().unwrap());
+            let after = std::fs::read(&target).unwrap_or_default();
+            if o3.ok() {
+                rep.violate(format!("C20|generate-config|second-run-succeeds|{what}"), format!("typeshare -g over an existing ({what}) file exits 0"), json!({"args": args2}));
+            }
+            if !mods.is_empty() || after != content {
+                rep.violate(format!("C20|generate-config|existing-file-touched|{what}"), format!("typeshare -g modified an existing ({what}) configuration file: {}", mods.first().map(|e| e.line.clone()).unwrap_or_default()), json!({"args": args2, "before": String::from_utf8_lossy(content), "after": String::from_utf8_lossy(&after)}));
+            }
+        }
         let _ = std::fs::remove_dir_all(&root);
         rep
     });
@@ -524,7 +545,7 @@ pub fn run(ctx: &Ctx) -> (Spec, Report) {
     let _ = std::fs::remove_dir_all(&scratch);
     let spec = Spec {
         level: "exploration",
-        rule: format!("{} cells of the real binary: for each language the full {{absent, present}} x {{absent, present}} matrix on the command line x in the file for every dual option (swift-prefix; kotlin-prefix x java-package x module-name; scala-package x scala-module-name; go-package), combined with random file-only tables (type_mappings incl. entries that map a name to itself and a mapped generic type written with arguments the backend would refuse, default_decorators, default_generic_constraints, codablevoid_constraints, uppercase_acronyms, no_pointer_slice), the config found by -c, by ancestor search from cwd depth 0-3, or absent, half of the runs with a second, losing configuration (one or two levels further up the ancestor chain, or in the working directory when -c names another file); every other cell starting over an output of equal length left by other settings; oracle: output bytes equal the library pipeline run with cli ?? file ?? default; plus {n_g} generate-config runs (random option subsets, default and explicit path): behavioural round trip for all 6 languages and a second -g under strace that must fail without touching the file; distinct = (language, per-option source, discovery)", cells.len()),
+        rule: format!("{} cells of the real binary: for each language the full {{absent, present}} x {{absent, present}} matrix on the command line x in the file for every dual option (swift-prefix; kotlin-prefix x java-package x module-name; scala-package x scala-module-name; go-package), combined with random file-only tables (type_mappings incl. entries that map a name to itself and a mapped generic type written with arguments the backend would refuse, default_decorators, default_generic_constraints, codablevoid_constraints, uppercase_acronyms, no_pointer_slice), the config found by -c, by ancestor search from cwd depth 0-3, or absent, half of the runs with a second, losing configuration (one or two levels further up the ancestor chain, or in the working directory when -c names another file); every other cell starting over an output of equal length left by other settings; oracle: output bytes equal the library pipeline run with cli ?? file ?? default; plus {n_g} generate-config runs (random option subsets, default and explicit path): behavioural round trip for all 6 languages and further -g runs under strace over the file just written, an empty file, a one-byte file and somebody else's file, each of which must fail without touching the file; distinct = (language, per-option source, discovery)", cells.len()),
         assumptions: vec![
             "the library driver's construction of backend structs from a configuration mirrors cli/src/main.rs::language()".into(),
             "Scala without any package panics and Go without any package is refused: both are accepted outcomes here (the panic is C07's)".into(),
